@@ -155,9 +155,11 @@ def ensure(flavour, quiet=False):
         out = os.path.join(fdir, key)
         if not os.path.exists(os.path.join(out, "OK")):
             shutil.rmtree(out, ignore_errors=True)
-            for d in os.listdir(fdir):
-                if d != ".lock":
-                    shutil.rmtree(os.path.join(fdir, d), ignore_errors=True)
+            # keep the two most recently used other builds (mutation demos switch trees back and forth)
+            olds = sorted((d for d in os.listdir(fdir) if d != ".lock"),
+                          key=lambda d: os.path.getmtime(os.path.join(fdir, d)), reverse=True)
+            for d in olds[2:]:
+                shutil.rmtree(os.path.join(fdir, d), ignore_errors=True)
             if not quiet:
                 print("[build] %s flavour from %s -> %s" % (flavour, repo, out), file=sys.stderr, flush=True)
             t0 = time.time()
@@ -168,6 +170,8 @@ def ensure(flavour, quiet=False):
                 raise
             if not quiet:
                 print("[build] %s done in %.1fs" % (flavour, time.time() - t0), file=sys.stderr, flush=True)
+        else:
+            os.utime(out)
         return out
 
 
